@@ -31,11 +31,17 @@ def transforms(p, rng, extracted, avoid=()):
             pat = pats[rng.below(len(pats))]
             ren[n] = pat.replace("{i}", str(i))
         out.append(("rename:" + pool, coregen.Knobs(rename=ren)))
+    fields = coregen.field_names(p)
+    if fields:
+        # field renaming that reverses the alphabetical order of the fields (their storage order changes, the meaning must not)
+        fr = {f: "z%02d_" % (len(fields) - i) + f for i, f in enumerate(fields)}
+        out.append(("rename:fields", coregen.Knobs(fieldrename=fr)))
     out.append(("parens", coregen.Knobs(parens=True)))
     out.append(("layout", coregen.Knobs(comments=True, newline_in_brackets=True)))
     out.append(("annotate", coregen.Knobs(annotate=True)))
     out.append(("all", coregen.Knobs(parens=True, comments=True, newline_in_brackets=True, annotate=True,
-                                     rename={n: "q%d_" % i + n for i, n in enumerate(names)})))
+                                     rename={n: "q%d_" % i + n for i, n in enumerate(names)},
+                                     fieldrename={f: "w%02d_" % (len(fields) - i) + f for i, f in enumerate(fields)})))
     return out
 
 
